@@ -86,6 +86,61 @@ def canon_dec(items):
     return st, orders
 
 
+def byte_runs(items):
+    """the byte image the static accesses write, as runs of per-byte bit provenance (LSB first inside a byte), in the
+    order the bytes reach the wire; a run ends at every item whose size is not static"""
+    runs, cur = [], []
+    for it in items:
+        if it["k"] == "chunk" and isinstance(it.get("n"), int) and it.get("bits") is not None \
+                and len(it["bits"]) == it["n"] * 8:
+            bits = list(canon_bits(it["bits"]))
+            n = it["n"]
+            order = it.get("order") or "little"
+            bs = [tuple(bits[8 * k:8 * k + 8]) for k in range(n)]
+            if order == "big" and not it.get("fill"):
+                bs.reverse()
+            cur += bs
+        else:
+            runs.append(cur)
+            cur = []
+    runs.append(cur)
+    return runs
+
+
+def group_runs(want):
+    """reference groups (octet sizes of the bit-field groups), split into runs like byte_runs"""
+    runs, cur = [], []
+    for it in want:
+        if it["k"] == "chunk":
+            cur.append(it["n"])
+        else:
+            runs.append(cur)
+            cur = []
+    runs.append(cur)
+    return runs
+
+
+def byte_image_duality(rep, where, side, want, le_items, be_items):
+    """inside every reference group the big-endian twin writes the bytes of the little-endian twin in reverse order --
+    also when a group is written by several accesses, which the item-for-item comparison cannot see"""
+    rl, rb, gr = byte_runs(le_items), byte_runs(be_items), group_runs(want)
+    n = 0
+    if not (len(rl) == len(rb) == len(gr)):
+        return 0
+    for a, b, gs in zip(rl, rb, gr):
+        if len(a) != len(b) or len(a) != sum(gs):
+            continue            # sizes are C03's subject
+        off = 0
+        for g in gs:
+            n += 1
+            if list(reversed(a[off:off + g])) != b[off:off + g]:
+                rep.add(f"C17|{side}|byte-image", f"the {g}-octet group at offset {off} of a static run is not byte-reversed "
+                        f"between the twins (written by several accesses in an order that only suits one endianness)", where)
+                return n
+            off += g
+    return n
+
+
 def check_orders(rep, where, side, le, be):
     n = 0
     for i, ((n1, o1, f1), (n2, o2, f2)) in enumerate(zip(le, be)):
@@ -110,10 +165,11 @@ def run(rep, tier, seed):
     for name in mods:
         if name.endswith("_le") and name[:-3] + "_be" in mods:
             pairs.append((name, name[:-3] + "_be"))
-    stats = {"pairs": 0, "types": 0, "accesses": 0}
+    stats = {"pairs": 0, "types": 0, "accesses": 0, "groups": 0}
     samples = []
     for le, be in pairs:
         ml, mb = mods[le], mods[be]
+        rl_ = rc.model_ref(g, le)
         stats["pairs"] += 1
         tl, tb = ml.type_names(), mb.type_names()
         if le.startswith("r_canon"):
@@ -136,6 +192,18 @@ def run(rep, tier, seed):
                             f"{str(sl[diff] if diff < len(sl) else None)[:120]} vs {str(sb[diff] if diff < len(sb) else None)[:120]}", where)
                 else:
                     stats["accesses"] += check_orders(rep, where, "enc", ol, ob)
+                if fn == "encode" and rl_ is not None and ty in rl_.decls:
+                    try:
+                        want = rl_.full_layout(ty)
+                    except Exception:
+                        want = None
+                    if want is not None:
+                        il, ib = rslayout.encoder_items(el_), rslayout.encoder_items(eb_)
+                        if ml.fn(ty, "encode_partial") is not None:
+                            from .c03 import expand_child
+                            il = expand_child(il, rslayout.encoder_items(ml.eval_encode(ty, "encode_partial")))
+                            ib = expand_child(ib, rslayout.encoder_items(mb.eval_encode(ty, "encode_partial")))
+                        stats["groups"] += byte_image_duality(rep, where, "rust|enc", want, il, ib)
             for fn in ("decode", "decode_partial"):
                 if ml.fn(ty, fn) is None:
                     continue
@@ -157,12 +225,13 @@ def run(rep, tier, seed):
     add_other_backends(rep, g, stats)
     rep.coverage.update({
         "programs": stats["types"], "disagreements_checked": stats["accesses"], "twin_pairs": stats["pairs"],
-        "samples": samples, "backends": stats.get("backends", ["rust"]),
+        "samples": samples, "backends": stats.get("backends", ["rust"]), "groups_byte_reversed": stats["groups"],
         "explanation": "layouts of little/big-endian twins compared item for item; only the byte order tag of multi-byte "
-                       "accesses may differ, and it must be little vs big",
+                       "accesses may differ, and it must be little vs big; serializers additionally byte image by byte "
+                       "image: inside every reference group the big-endian bytes are the little-endian ones reversed",
     })
-    if stats["pairs"] < 40:
-        rep.add("C17|coverage-floor", f"only {stats['pairs']} twin pairs (floor 40)", "corpus")
+    if stats["pairs"] < 40 or stats["groups"] < 800:
+        rep.add("C17|coverage-floor", f"only {stats['pairs']} twin pairs / {stats['groups']} groups (floors 40 / 800)", "corpus")
 
 
 def add_other_backends(rep, g, stats):
